@@ -13,6 +13,8 @@
 (*         of the request samples inside it (decided here for untransformed/integer-translated nearest *)
 (*         sources; for other transforms the implication is left to (iii)); the destination has no     *)
 (*         alpha channel; a flagged mask is absent, solid alpha 1, or alpha-less ... ;                  *)
+(*         a gradient (source or mask kind 8) is truly opaque iff every one of its samples inside the  *)
+(*         request, logged in Req.galpha, has alpha 255;                                               *)
 (*   (iii) the two presentations of a pair leave the same picture: identical channel fields            *)
 (*         (cmp = 0), or within one step (cmp = 1: the variants are evaluated at different precision).  *)
 EXTENDS Opacity, TraceIO
@@ -54,12 +56,19 @@ KernelUnitGain(r) ==
     ELSE LET w == r.kernel[1] \div 65536 IN
          SumFrom(SubSeq(r.kernel, 5, 4 + w), 1) = 65536 /\ SumFrom(r.kernel, 5 + w) = 65536
 
+(* a gradient (source / mask kind 8: linear, radial or conical, any repeat mode and stop list, presented directly or     *)
+(* rendered into an a8r8g8b8 image first) is opaque for the request iff every sample of the request is: galpha lists    *)
+(* the alpha of each gradient sample inside the request, read from the gradient rendered alone with SRC onto a cleared *)
+(* a8r8g8b8 buffer                                                                                                    *)
+GradTrulyOpaque(r) == \A i \in DOMAIN r.galpha : r.galpha[i] = 255
+
 SrcTrulyOpaque(r) ==
+    \/ r.skind = 8 /\ GradTrulyOpaque(r)
     \/ r.skind \in {1, 6}                                   \* solid, alpha 1 (6: drawn by pixman_image_fill_boxes)
     \/ /\ r.skind \in {0, 2, 3} /\ r.s_abits = 0           \* alpha-less format ...
        /\ (r.srep # 0 \/ ~r.simple \/ FootprintInside(r))  \* ... and nothing sampled outside a non-repeating image
        /\ KernelUnitGain(r)                                 \* ... and the filter does not scale alpha
-MaskTrulyOpaque(r) == r.mkind \in {0, 1, 2, 3}             \* absent, solid alpha 1, or a bits mask that is 255 in every
+MaskTrulyOpaque(r) == (r.mkind = 8 /\ GradTrulyOpaque(r)) \/ r.mkind \in {0, 1, 2, 3}   \* opaque gradient, absent, solid alpha 1, or a bits mask that is 255 in every
                                                             \* (component of every) pixel the request samples
 
 (* A reduction is judged against what is TRUE of the request, not against the flags the library happened to     *)
